@@ -42,6 +42,8 @@ func runC28(c *Ctx) {
 	r.Rule("C28.R4", "sequence skipping: NextSequenceNumber is called exactly PrevDroppedPackets times (counting loop bounded by that field, unconditional call, no early exit) on the sequencer stored in the track", 2)
 	r.Rule("C28.R5", "every packet returned by Packetize is passed to WriteRTP exactly once (plain range over the result, unconditional call, no break/continue/return)", 1)
 	r.Rule("C28.R6", "Bind wiring: the packetizer is constructed with the track's stored sequencer and the codec clock rate that is also stored as the track clock rate; WriteSample uses the stored packetizer/sequencer/clock rate", 4)
+	r.Rule("C28.R7", "every sample is accounted for: WriteSample returns before the Packetize call only through the edge that establishes exactly `packetizer == nil` (track not bound)", 1)
+	r.Rule("C28.R8", "Bind stores a sequencer only on a path that goes on to build the packetizer from it (every path from a store of the sequencer field to a successful return passes a store of the packetizer field)", 2)
 	r.NotCovered = append(r.NotCovered,
 		"the numeric statement: timestamp = initial + floor(total duration x clock rate) within one tick, mod 2^32 (floating-point accumulation over unbounded sequences)",
 		"that all packets of one sample share a timestamp and that sequence numbers increase by one per packet (pion/rtp Packetizer, outside the module)",
@@ -67,6 +69,7 @@ func runC28(c *Ctx) {
 		r.Fail("C28.R1", "anchor:github.com/pion/rtp.Packetizer/Sequencer", "-", "pion/rtp Packetizer.Packetize/SkipSamples or Sequencer.NextSequenceNumber no longer resolve (fails closed)")
 		return
 	}
+	c28R78(c, ws, bind, fSeq, fPkt, mPacketize) // c28b.go
 	fn := c.P.SSAFunc(ws)
 	if fn == nil || len(fn.Blocks) == 0 {
 		r.Fail("C28.R1", "anchor:ssa:WriteSample", "-", "no SSA body for WriteSample")
